@@ -240,11 +240,26 @@ def rules(ck, P):
             by_t.setdefault(t, []).append((a, w))
         okm = True
         why = []
-        for var, agg, op in (("y0", "MIN(tile_row)", "<="), ("y1", "MAX(tile_row)", ">=")):
-            qs = by_t.get(var, [])
-            if len(qs) != 2 or any(a != agg for a, _ in qs):
+        # roles are taken from the aggregates, not from variable names
+        role = {}
+        for t, qs in by_t.items():
+            aggs = {a for a, _ in qs}
+            if len(aggs) == 1:
+                role.setdefault(next(iter(aggs)), []).append(t)
+        names = {}
+        for agg, key_ in (("MIN(tile_column)", "x0"), ("MAX(tile_column)", "x1"), ("MIN(tile_row)", "y0"), ("MAX(tile_row)", "y1")):
+            ts = role.get(agg, [])
+            if len(ts) != 1:
                 okm = False
-                why.append("%s queries: %s" % (var, qs))
+                why.append("%s is assigned to %s" % (agg, ts))
+            else:
+                names[key_] = ts[0]
+        for key_, agg, op in (("y0", "MIN(tile_row)", "<="), ("y1", "MAX(tile_row)", ">=")):
+            var = names.get(key_)
+            qs = by_t.get(var, [])
+            if var is None or len(qs) != 2:
+                okm = False
+                why.append("%s queries: %s" % (agg, qs))
                 continue
             est, ref = qs
             if "tile_column" not in est[1]:
@@ -254,11 +269,12 @@ def rules(ck, P):
             if not m or m.group(1) != op or m.group(2) != var:
                 okm = False
                 why.append("refinement of %s is `%s`" % (var, ref[1]))
-        for var, agg in (("x0", "MIN(tile_column)"), ("x1", "MAX(tile_column)")):
+        for key_, agg in (("x0", "MIN(tile_column)"), ("x1", "MAX(tile_column)")):
+            var = names.get(key_)
             qs = by_t.get(var, [])
-            if len(qs) != 1 or qs[0][0] != agg or "tile_column" in qs[0][1] or "tile_row" in qs[0][1]:
+            if var is None or len(qs) != 1 or "tile_column" in qs[0][1] or "tile_row" in qs[0][1]:
                 okm = False
-                why.append("%s: %s" % (var, qs))
+                why.append("%s: %s" % (agg, qs))
         ck.check(okm, "R-COVER-MB", b["q"] + "|refine", "MIN(tile_row) is refined with tile_row <= {y0}, MAX(tile_row) with tile_row >= {y1}; column bounds are unrestricted MIN/MAX",
                  "estimate/refine queries are not sound: %s" % why, ir.loc(b))
         nb = [n for n in ir.walk_nodes(b["body"]) if n.get("k") == "call" and (n.get("q") or "").endswith("TileBBox::new")]
@@ -270,7 +286,7 @@ def rules(ck, P):
                 while x is not None and x.get("k") in ("cast", "mcall"):
                     x = ir.strip(x["e"] if x.get("k") == "cast" else x["recv"])
                 roots.append(ir.place_str(x))
-            oko = roots == ["x0", "y0", "x1", "y1"]
+            oko = roots == [names.get("x0"), names.get("y0"), names.get("x1"), names.get("y1")] and None not in roots
         ck.check(oko, "R-COVER-MB", b["q"] + "|order", "TileBBox::new(z, x0, y0, x1, y1): min/max columns and rows in constructor order", "TileBBox::new arguments are %s" % (roots if nb else None), ir.loc(b))
         flips = [n for n in ir.walk_nodes(b["body"]) if n.get("k") == "mcall" and n.get("name") == "flip_y"]
         in_loop = any(ir.contains(lp, lambda y: y.get("k") == "mcall" and y.get("name") == "flip_y") for lp in ir.walk_nodes(b["body"]) if lp.get("k") == "for")
